@@ -45,6 +45,7 @@ class Run:
         self.work = os.path.join(VERIF, '.work', f'{prop}-{os.getpid()}')
         shutil.rmtree(self.work, ignore_errors=True)
         os.makedirs(self.work)
+        shutil.rmtree(os.path.join(OUT, 'replay', prop), ignore_errors=True)
         self.states = 0
         self.transitions = 0
         self.tlc_runs = []
